@@ -143,6 +143,11 @@ pub trait PropImpl: Sync + Send + 'static {
     fn assumptions(&self) -> Vec<String> {
         vec![]
     }
+    /// Labels (case shapes) that every run must produce: generator-health check. A label that never occurs is listed in
+    /// the evidence file and printed as a warning (a degenerate generator makes a check vacuous).
+    fn expected_labels(&self) -> Vec<&'static str> {
+        vec![]
+    }
     fn budget(&self, tier: Tier) -> Budget;
     fn spaces(&self, _tier: Tier) -> Vec<Space> {
         vec![]
@@ -187,6 +192,7 @@ pub trait Prop: Sync + Send {
     fn level(&self) -> &'static str;
     fn rule(&self) -> String;
     fn assumptions(&self) -> Vec<String>;
+    fn expected_labels(&self) -> Vec<&'static str>;
     fn budget(&self, tier: Tier) -> Budget;
     fn spaces(&self, tier: Tier) -> Vec<Space>;
     fn run_tape(&self, tape: &[u8], avoid_known: bool, render: bool) -> CaseReport;
@@ -258,6 +264,9 @@ impl<P: PropImpl> Prop for P {
     }
     fn assumptions(&self) -> Vec<String> {
         PropImpl::assumptions(self)
+    }
+    fn expected_labels(&self) -> Vec<&'static str> {
+        PropImpl::expected_labels(self)
     }
     fn budget(&self, tier: Tier) -> Budget {
         PropImpl::budget(self, tier)
